@@ -4,7 +4,7 @@ import itertools
 
 ID = "C09"
 THEOREM_MODULE = "SimVerif.Props.C09"
-THEOREM_MODULES = ["SimVerif.Props.C09", "SimVerif.Tie.Track", "SimVerif.Tie.StoreCmd"]
+THEOREM_MODULES = ["SimVerif.Props.C09", "SimVerif.Tie.Track", "SimVerif.Tie.StoreCmd", "SimVerif.Tie.StoreMap"]
 NONTRIVIAL_FLAGS = {"dup", "add-missing", "fetch-missing", "fetch-hit", "merge-CB", "merge-NOTFOUND", "merge-SAME", "remove-src", "lookup", "usable", "fails", "clear"}
 RULE = ("operation sequences over a 5-id / 3-class alphabet on stores with 1..5 shards: add_track (externally built tracks, duplicates), add (existing and missing ids, empty observation, failing update/optimise), "
         "fetch_tracks (existing, missing, repeated ids), merge_owned / merge_external / merge_external_noblock (missing destination or source, same id, failing attribute merge or optimise, remove flag), lookup, find_usable, clear, shard_stats; "
@@ -70,7 +70,7 @@ def shape_key(case, results):
             return "store-" + t[1] + "-" + "-".join(f for f in r.flags if f.startswith("merge-") or f in ("dup", "add-missing", "fetch-missing"))
     return "none"
 
-SOURCE_TIE = "Source-level tie by proof (Tie/Track, Tie/StoreCmd): Track::add_observation, Track::merge and the Merge command of the store worker, regenerated from the source, equal the model's addObservation / merge / the per-shard mergeExternal step."
+SOURCE_TIE = "Source-level tie by proof (Tie/Track, Tie/StoreCmd, Tie/StoreMap): Track::add_observation, Track::merge, the Merge command of the store worker and the map operations add_track / fetch_tracks / shard_stats / get_executor, regenerated from the source, equal the model's addObservation / merge / per-shard mergeExternal step / addTrack / fetchTracks / shardStats / shardOf."
 LEVEL_TEXT = LEVEL_TEXT + " " + SOURCE_TIE
 TRUSTED_BASE = TRUSTED_BASE + ["translator/kernels.py + rustexpr.py (reader of the Rust subset, per-function tables) for the functions named in SOURCE_TIE; generated definitions are proof obligations (Tie modules) on every run"]
 TECHNIQUE = TECHNIQUE + "; model regenerated from the source by a translator for the functions of SOURCE_TIE, tied by proof"
